@@ -25,6 +25,25 @@ def req_type(F):
     return dict(C07.messages(F))['Request']
 
 
+def req_fields(F):
+    """{'index'|'begin'|'length': field name} of Request, by position on the wire (the decoder's byte ranges, in order)"""
+    ty = req_type(F)
+    frm = C07.impl_method(F, ty, 'from')
+    fills, body = C07.reader_layout2(F, frm)
+    at = []
+    for bi, si, e in mirq.agg_sites(body, '^' + re.escape(ty) + '$'):
+        for fname, x in e[4]:
+            x = C07.strip_cast(x)
+            if x[0] == 'call' and x[4].get('name') == 'from_be_bytes':
+                k = C07._lkey(x[2][0])
+                if k in fills and fills[k][0] is not None:
+                    at.append((fills[k][0], fname))
+    at = sorted(set(at))
+    if len(at) != 3:
+        raise AnchorMissing('Request::from does not fill three big-endian fields from byte ranges (%s)' % at)
+    return dict(zip(('index', 'begin', 'length'), [n for s, n in at]))
+
+
 def request_handler(F):
     D, sbs = C.frame_dispatch(F)
     disp = max(sbs, key=lambda s: len(D.cond(s)[1]))
@@ -82,6 +101,7 @@ def r2(cx, rec):
         raise AnchorMissing('Request::validate has %d parameters' % len(params))
     p_loaded, p_num, p_len = params
     need = {'index<pieces': False, 'index==loaded': False, 'length<=block': False, 'end<=piece': False}
+    fld = {k: 'self.' + v for k, v in req_fields(F).items()}
     for sb in V.switches():
         e, ts, o = V.cond(sb)
         if e[0] != 'binop' or not V.bool_edges(sb):
@@ -94,15 +114,15 @@ def r2(cx, rec):
             return all(x in V.only_via_edge((sb, edge)) for x in oks)
         la, lb = C07.lin(a), C07.lin(b)
         sa, sb_ = show(a), show(b)
-        if op in ('Ge', 'Lt') and pa and 'index' in pa and pb == p_num:
+        if op in ('Ge', 'Lt') and pa == fld['index'] and pb == p_num:
             if dominated(ff if op == 'Ge' else tt):
                 need['index<pieces'] = True
                 rec.site(V, sb, 'Ok requires %s < %s' % (pa, pb))
-        if op in ('Ne', 'Eq') and pa and 'index' in pa and pb == p_loaded:
+        if op in ('Ne', 'Eq') and pa == fld['index'] and pb == p_loaded:
             if dominated(ff if op == 'Ne' else tt):
                 need['index==loaded'] = True
                 rec.site(V, sb, 'Ok requires %s == %s' % (pa, pb))
-        if op in ('Gt', 'Le') and pa and 'length' in pa and const_of(b) and (const_of(b)[1] or '').endswith('PIECE_BLOCK_SIZE'):
+        if op in ('Gt', 'Le') and pa == fld['length'] and const_of(b) and (const_of(b)[1] or '').endswith('PIECE_BLOCK_SIZE'):
             if dominated(ff if op == 'Gt' else tt):
                 need['length<=block'] = True
                 rec.site(V, sb, 'Ok requires %s <= PIECE_BLOCK_SIZE' % pa)
@@ -112,7 +132,7 @@ def r2(cx, rec):
                 inner = inner[1]
             if inner[0] == 'binop' and inner[1].startswith('Add'):
                 x, y = access_path(inner[2]) or '', access_path(inner[3]) or ''
-                if {'begin' in x or 'begin' in y, 'length' in x or 'length' in y} == {True} and dominated(ff if op == 'Gt' else tt):
+                if {x, y} == {fld['begin'], fld['length']} and dominated(ff if op == 'Gt' else tt):
                     need['end<=piece'] = True
                     rec.site(V, sb, 'Ok requires %s + %s <= %s' % (x, y, pb))
     for k, v in need.items():
